@@ -208,7 +208,7 @@ M += [
     # reader splitting on any white space (C19b)
     ("C19", P, '                [name, value] = line.split(" ") ', '                [name, value] = line.split() ', None, "violation", "C19:file:reader"),
     # default argument evaluated at import (C20b)
-    ("C20", L, "    U = np.asarray(U_matrix, float)\n    if CHECKS.activated: checks._check_rotation_matrix(U)\n\n    ttt", "    U = _as_rot(U_matrix)\n\n    ttt", None, "violation", "C20:site:xfab/laue.py:u_to_rod"),
+    ("C20", L, "    U = np.asarray(U_matrix, float)\n    if CHECKS.activated: checks._check_rotation_matrix(U)\n\n    ttt", "    U = np.asarray(U_matrix, float)\n\n    ttt", None, "violation", "C20:site:xfab/laue.py:u_to_rod"),
     # cached group object keyed without the setting (C04b-like): instantiation outside __init__
     ("C04", SG, "        obj = klass(cell_choice=cell_choice)", "        obj = klass()", None, "violation", "C04:lookup:instantiate"),
     # QR route with columns flipped (C13b) and the correct QR route
